@@ -649,6 +649,10 @@ def evaluate_payload_template(input, context, template):
 
 
         # Extract intrinsic name and normalise it to asl_intrinsic_<name>
+        if "(" not in intrinsic:
+            raise IntrinsicFailure(
+                "{} is not an Intrinsic Function call.".format(intrinsic)
+            )
         func, args = intrinsic.split("(", 1)
         func = func.strip()
         normalised_func = func.replace("States.", "asl_intrinsic_")
